@@ -37,6 +37,7 @@ def run(ctx):
     malsec.dzkp_validate_path(ctx, facts, "PATH-verdict")
     affine_ids(ctx, facts)
     fresh_key(ctx, facts)
+    linear_ops(ctx, facts)
     from rules import C02
     C02.downgrade_users(ctx, facts)    # who may read a MAC-protected share without its check
     ctx.assume("detection probability (1/|F|) and algebraic soundness of the MAC scheme are not decided")
@@ -271,3 +272,65 @@ def fresh_key(ctx, facts):
                 ctx.ob("FRESH-r", "batch-constructor-passes-its-index", okb, "Malicious::new(ctx, batch_index, ..)" if okb else "the per-batch constructor does not pass its own batch index as the validator's offset", site_of(b, bb))
     if not hit:
         ctx.missing("FRESH-r", "closure calling Malicious::new(ctx, batch_index)")
+
+
+# ---------------------------------------------------------------------------------------------
+def linear_ops(ctx, facts, rule="LINEAR-mac", P="secret_sharing::replicated::malicious::additive_share::AdditiveShare", comps=("x", "rx"), lift=True, floor=12):
+    """A MAC-protected share is the pair (x, r*x).  Linear operations keep that relation only if the same operation is
+    applied to both components (and a public factor is lifted to the extended field for the rx component)."""
+    c0, c1 = comps
+    ctx.rule(f"{rule}: every std::ops impl on {P.split('::')[-3]}::AdditiveShare (Add, Sub, Neg, Not, Mul by a public value, and the *Assign forms) either forwards its whole operands to the same operator, or applies that very operator twice: to the .{c0} components and to the .{c1} components" + (" (for Mul: x * c and rx * to_extended(c))" if lift else " (for Mul: both times the same public factor)") + ", each result stored in its own component")
+    n = 0
+    for path, b in sorted(facts.bodies.items()):
+        m = re.search(r" as std::ops::(Add|Sub|Neg|Not|Mul|AddAssign|SubAssign)(<.*>)?>::(\w+)$", path)
+        if not m or P not in path.split(" as ")[0] or facts.is_test_path(path):
+            continue
+        n += 1
+        ctx.count(bodies=1)
+        tr, meth = m.group(1), m.group(3)
+        calls = [(F.callee(t)[0] or "", [flow.expr_of(b, a, max_depth=6) for a in t["args"]]) for bb, t in b.calls()]
+        ops = [(fn, a) for fn, a in calls if re.search(r"std::ops::(Add|Sub|Neg|Not|Mul|AddAssign|SubAssign)::\w+$", fn)]
+        same = [1 for fn, a in ops if fn.endswith(f"std::ops::{tr}::{meth}")]
+        inst = path.split(" as ")[0].lstrip("<")[:1].replace("s", "owned").replace("&", "ref") + ":" + tr + (m.group(2) or "")[:30]
+        inst = f"{tr}{'(&self)' if path.startswith('<&') else ''}{(m.group(2) or '')[:40]}"
+        def peel(e):
+            while e[0] == "call" and e[1].endswith("Clone::clone"):
+                e = e[2][0]
+            return e
+        def comp(e):
+            e = peel(e)
+            return str(e[2]) if e[0] == "arg" and len(e) == 3 else None
+        ok, why = False, ""
+        if len(ops) == 1 and len(same) == 1 and all(a[0] == "arg" and len(a) == 2 for a in ops[0][1]):
+            ok, why = True, "forwards its operands to the same operator"
+        elif len(ops) == 2 and len(same) == 2:
+            sides = []
+            for fn, a in ops:
+                c = [comp(x) for x in a if comp(x) is not None]
+                other = [x for x in a if comp(x) is None]
+                sides.append((c, other))
+            cx = [c for c, o in sides]
+            okc = sorted(map(tuple, cx)) in (sorted([(c0, c0), (c1, c1)]), sorted([(c0,), (c1,)]))
+            okm = True
+            if tr == "Mul":
+                for c, o in sides:
+                    if lift and c == [c1]:
+                        okm = okm and len(o) == 1 and "to_extended" in str(o[0])
+                    else:
+                        okm = okm and len(o) == 1 and peel(o[0]) == ("arg", 2)
+            okagg = True
+            for bb, idx, s in b.iter_assigns():
+                r = s["r"]
+                if r["k"] == "agg" and (r.get("adt") or "") == P:
+                    names = [f["name"] for f in facts.adts[r["adt"]]["variants"][0]["fields"]]
+                    for nm, o in zip(names, r["ops"]):
+                        e = flow.expr_of(b, o, max_depth=6)
+                        inner = [comp(x) for x in (e[2] if e[0] == "call" else ()) if isinstance(x, tuple) and comp(x) is not None]
+                        if str(nm) in comps and inner and set(inner) != {str(nm)}:
+                            okagg = False
+            ok = okc and okm and okagg
+            why = f"the operator is applied to ({c0}, {c0}) and to ({c1}, {c1}); results stored component-wise" if ok else (f"the two component operations do not pair .{c0} with .{c0} and .{c1} with .{c1}" if not okc else ("the public factor is not applied to both components (lifted with to_extended for rx)" if not okm else "a component result is stored in the other field"))
+        else:
+            why = f"{len(ops)} operator call(s), {len(same)} of them {tr}::{meth}: a component is combined with a different operation (e.g. `+=` on one component of a subtraction): the two components no longer move together (for a MAC share rx = r*x breaks; for a replicated share the neighbours disagree)"
+        ctx.ob(rule, inst, ok, why, site_of(b))
+    ctx.floor(rule, f"operator impls on {P.split('::')[-3]}::AdditiveShare", n, floor)
